@@ -170,12 +170,24 @@ int EGLPNUM_TYPENAME_ILLbasis_load (
 		if (cstat[i] == QS_COL_BSTAT_BASIC)
 		{
 			lp->vstat[j] = STAT_BASIC;
+			if (basic >= nrows)
+			{
+				QSlog("basis has more than one basic variable per row");
+				rval = 1;
+				goto CLEANUP;
+			}
 			lp->baz[basic] = j;
 			lp->vindex[j] = basic;
 			basic++;
 		}
 		else
 		{
+			if (nonbasic >= ncols - nrows)
+			{
+				QSlog("basis has less than one basic variable per row");
+				rval = 1;
+				goto CLEANUP;
+			}
 			lp->nbaz[nonbasic] = j;
 			lp->vindex[j] = nonbasic;
 			nonbasic++;
@@ -206,12 +218,24 @@ int EGLPNUM_TYPENAME_ILLbasis_load (
 			if (rstat[i] == QS_ROW_BSTAT_BASIC)
 			{
 				lp->vstat[j] = STAT_BASIC;
+				if (basic >= nrows)
+				{
+					QSlog("basis has more than one basic variable per row");
+					rval = 1;
+					goto CLEANUP;
+				}
 				lp->baz[basic] = j;
 				lp->vindex[j] = basic;
 				basic++;
 			}
 			else
 			{
+				if (nonbasic >= ncols - nrows)
+				{
+					QSlog("basis has less than one basic variable per row");
+					rval = 1;
+					goto CLEANUP;
+				}
 				lp->nbaz[nonbasic] = j;
 				lp->vindex[j] = nonbasic;
 				nonbasic++;
@@ -236,12 +260,24 @@ int EGLPNUM_TYPENAME_ILLbasis_load (
 			{
 			case QS_ROW_BSTAT_BASIC:
 				lp->vstat[j] = STAT_BASIC;
+				if (basic >= nrows)
+				{
+					QSlog("basis has more than one basic variable per row");
+					rval = 1;
+					goto CLEANUP;
+				}
 				lp->baz[basic] = j;
 				lp->vindex[j] = basic;
 				basic++;
 				break;
 			case QS_ROW_BSTAT_LOWER:
 				lp->vstat[j] = STAT_LOWER;
+				if (nonbasic >= ncols - nrows)
+				{
+					QSlog("basis has less than one basic variable per row");
+					rval = 1;
+					goto CLEANUP;
+				}
 				lp->nbaz[nonbasic] = j;
 				lp->vindex[j] = nonbasic;
 				nonbasic++;
